@@ -31,6 +31,7 @@ Fixpoint gval_eqb (fuel : nat) (a b : gval) {struct fuel} : bool :=
       | GI x, GI y => Z.eqb x y
       | GF x, GF y => Qeq_bool x y
       | GFm None, GFm None => true
+      | GFm (Some []), GFm None => true          (* an accepted empty text prints like the zero value *)
       | GFm (Some x), GFm (Some y) => str_eqb x y
       | GP x, GP y => gval_eqb f x y
       | GL x, GL y =>
